@@ -111,7 +111,7 @@ func run(c *core.Ctx) error {
 	if c.Thorough() {
 		b = bounds{MaxTokens: 6, MaxCases: 3, MaxDepth: 2, MaxPaths: 2, MaxTokens2: 4, GrepPairs: true} // 7 tokens / 4 cases (about 125 000 instances) did not finish within an hour on the shared machine
 	}
-	nSample := c.Pick(300, 3000)
+	nSample := c.Pick(300, 900) // the replay run of TLC predicts 4 deviation sets per instance: 3 000 instances did not finish in 40 minutes
 	// developer aid (kill-testing mutants on a busy machine): VERIF_C34_MAXTOKENS shrinks the family
 	if v, err := strconv.Atoi(os.Getenv("VERIF_C34_MAXTOKENS")); err == nil && v >= 3 {
 		b.MaxTokens = v
